@@ -40,7 +40,8 @@ type LoopC struct {
 }
 
 type CallsiteC struct {
-	Callee string
+	Callee   string
+	Optional bool // no error when the function has no such call
 	Ord    int // 1-based among calls to Callee in source order
 	Assert []*Clause
 	Assume []*Clause
@@ -418,6 +419,12 @@ func ParseContractFile(path string) (*CFile, error) {
 				return nil, errf(l, "callsite outside func")
 			}
 			rest := strings.TrimSpace(strings.TrimPrefix(t, "callsite "))
+			optional := false
+			if strings.HasSuffix(rest, " optional") {
+				// the call need not exist (its ghost updates then never happen)
+				optional = true
+				rest = strings.TrimSpace(strings.TrimSuffix(rest, " optional"))
+			}
 			ord := 1
 			if i := strings.LastIndex(rest, "#"); i >= 0 {
 				if rest[i+1:] == "*" {
@@ -431,7 +438,7 @@ func ParseContractFile(path string) (*CFile, error) {
 				}
 				rest = rest[:i]
 			}
-			curCS = &CallsiteC{Callee: strings.TrimSpace(rest), Ord: ord}
+			curCS = &CallsiteC{Callee: strings.TrimSpace(rest), Ord: ord, Optional: optional}
 			curF.Callsites = append(curF.Callsites, curCS)
 			curLoop = nil
 		case strings.HasPrefix(t, "before:"), strings.HasPrefix(t, "after:"):
